@@ -538,8 +538,9 @@ class IOSupport:
             if site_key not in gene_info.canonical_sites:
                 intron_left_pos = intron[0] - gene_info.all_read_region_start
                 intron_right_pos = intron[1] - gene_info.all_read_region_start
-                left_site = gene_info.reference_region[intron_left_pos:intron_left_pos+2]
-                right_site = gene_info.reference_region[intron_right_pos - 1:intron_right_pos + 1]
+                # soft-masked (lower-case) reference bases are the same bases, cf. get_intron_strand
+                left_site = gene_info.reference_region[intron_left_pos:intron_left_pos+2].upper()
+                right_site = gene_info.reference_region[intron_right_pos - 1:intron_right_pos + 1].upper()
                 if strand == '+':
                     gene_info.canonical_sites[site_key] = (left_site, right_site) in CANONICAL_FWD_SITES
                 else:
